@@ -4,6 +4,18 @@ NOT_APPLICABLE = {('C%02d' % i): TODO for i in range(1, 21)}
 R_NOTE = ('R-model: floats are mathematical reals, float literals are the decimal rationals written in the source, '
           'transcendental functions are uninterpreted with sound axiom instances; IEEE rounding is outside the claim. ')
 CHECKS = {
+    'C07': {
+        'text': 'Bounded symbolic execution + SMT: conform14, Transformation.__add__/__neg__ and the ATRF2014<->GDA2020 wrappers '
+                '(real source) run with the epoch a symbolic date (integer day offset in [-30000, 30000]), a symbolic point '
+                '(|X| <= 1e7) and symbolic or shipped parameter sets (two same-labelled sets in sequence); results are proved '
+                'identical to the 7-parameter formula on round8(p + rate*days/365.25); NRA lemmas bound the 8-decimal rounding '
+                'by < 2 um and the set-then-negation residual of the plate-motion wrappers by 5 um for 1980..2060; identity '
+                'at 2020-01-01 is proved exactly.',
+        'design_ref': 'DESIGN.md section 7 C07',
+        'note': R_NOTE + 'The claim composes separately proved obligations (structure identity, rounding lemma, rotation bound, '
+                'second-order polynomial lemma); datetime.date arithmetic is represented by the symbolic day difference.',
+        'technique': 'symbolic execution of the real Python source + SMT (z3 NRA/LRA with uninterpreted rounding), witness replay',
+    },
     'C06': {
         'text': 'Bounded symbolic execution + SMT: conform7 (real source) runs on a symbolic point, symbolic parameter set '
                 '(|t|<=1000 m, |s|<=100 ppm, |r|<=59.9"), symbolic uncertainties and symbolic symmetric covariance, also as a '
